@@ -703,6 +703,51 @@ def run_hooked(case, res, P, feats, rng, n_steps):
         hk.wrap(dassh.assembly.Assembly, 'update_region', pre=_enter,
                 post=_leave)
 
+        def _exact_transfer(r_, i, reg, t_gap, h_gap, where):
+            # what is handed over is the film-coefficient weighted transfer
+            # of the gap state with the region's own (monitored) matrix:
+            # h = M h_g, T = M (h_g T_g) / M h_g - the only transfer under
+            # which the flux on the duct mesh carries the heat of the gap mesh
+            M = np.asarray(reg._map['gap2duct'], dtype=float)
+            hg = np.asarray(r_.core.adjacent_coolant_gap_htc(i), dtype=float)
+            Tg = np.asarray(r_.core.adjacent_coolant_gap_temp(i),
+                            dtype=float)
+            h_exp = M @ hg
+            T_exp = (M @ (hg * Tg)) / h_exp
+            sc = float(np.max(np.abs(T_exp))) + 1e-300
+            res.close('G2_handed_is_h_weighted_transfer',
+                      float(np.max(np.abs(np.asarray(t_gap) - T_exp))), sc,
+                      1e-12, 'gap temperature handed to assembly %d (%s) is '
+                      'not M(h T)/M(h) of the gap cells around it' % (i, where),
+                      {'mech': 'handed_transfer', 'what': 'temperature',
+                       'where': where, 'gap': r_.core.model})
+            res.close('G2_handed_is_h_weighted_transfer',
+                      float(np.max(np.abs(np.asarray(h_gap) - h_exp))),
+                      float(np.max(np.abs(h_exp))) + 1e-300, 1e-12,
+                      'gap film coefficient handed to assembly %d (%s) is not '
+                      'M(h) of the gap cells around it' % (i, where),
+                      {'mech': 'handed_transfer', 'what': 'film coefficient',
+                       'where': where, 'gap': r_.core.model})
+
+        def _activate(args, kwargs):
+            # region change: the new region is activated with the gap state
+            # transferred onto ITS duct mesh
+            r_ = state.get('r')
+            if r_ is None or r_.core.model is None or state['building']:
+                return None
+            reg = args[0]
+            t_gap = args[2] if len(args) > 2 else kwargs.get('t_gap')
+            h_gap = args[3] if len(args) > 3 else kwargs.get('h_gap')
+            adiab = args[4] if len(args) > 4 else kwargs.get('adiabatic')
+            if t_gap is None or h_gap is None or adiab:
+                return None
+            for i, a in enumerate(r_.assemblies):
+                if any(reg is x for x in a.region):
+                    _exact_transfer(r_, i, reg, np.asarray(t_gap, float),
+                                    np.asarray(h_gap, float), 'activate')
+                    break
+            return None
+
         def _handed(args, kwargs):
             # the gap temperature and film coefficient handed to the
             # assembly are the transferred values: a uniform field around
@@ -721,6 +766,7 @@ def run_hooked(case, res, P, feats, rng, n_steps):
             h_gap = np.asarray(args[3] if len(args) > 3
                                else kwargs['h_gap'], dtype=float)
             n_g = int(r_.core._n_sc_per_asm[i])
+            _exact_transfer(r_, i, a.active_region, t_gap, h_gap, 'step')
             for nm, got, src in (
                     ('temperature', t_gap,
                      np.asarray(r_.core.adjacent_coolant_gap_temp(i),
@@ -739,6 +785,10 @@ def run_hooked(case, res, P, feats, rng, n_steps):
                            'gap': r_.core.model})
             return None
         hk.wrap(dassh.assembly.Assembly, 'calculate', pre=_handed)
+        import dassh.region_rodded as _rr
+        import dassh.region_unrodded as _ru
+        hk.wrap(_rr.RoddedRegion, 'activate', pre=_activate)
+        hk.wrap(_ru.SingleNodeHomogeneous, 'activate', pre=_activate)
         inp, r = drive.build(P, d)
         state['r'] = r
         state['building'] = False
@@ -775,6 +825,24 @@ def run_hooked(case, res, P, feats, rng, n_steps):
                           'its own duct mesh and the gap mesh around its own '
                           'assembly (or the two directions are swapped)',
                           {'mech': 'wiring', 'region': _region_kind(reg)})
+        # the contact length the core multiplies fluxes with, per gap cell
+        # around each assembly, is the width of that cell of the gap mesh
+        wp = r.core.gap_params.get('asm wp') if hasattr(
+            r.core, 'gap_params') else None
+        if wp is not None and wired:
+            for ai, a in enumerate(r.assemblies):
+                ig = reg_.by_id.get(id(a.region[0]._map['gap2duct']))
+                n_g = int(r.core._n_sc_per_asm[ai])
+                got = np.asarray(wp[ai], dtype=float)[:n_g]
+                w_g = np.asarray(ig[1]['w_g'], dtype=float)
+                res.close('H4_core_contact_lengths_are_gap_cell_widths',
+                          float(np.max(np.abs(np.sort(got) - np.sort(w_g)))),
+                          float(np.max(w_g)), 1e-10,
+                          'contact lengths of the gap cells around assembly '
+                          '%d differ from the cell widths of the gap mesh '
+                          '(sum %.6e vs perimeter %.6e)'
+                          % (ai, float(got.sum()), float(w_g.sum())),
+                          {'mech': 'core_widths'})
         if not wired:
             return state['different']
         # heat the assemblies so the mapped vectors are not uniform
